@@ -38,7 +38,26 @@ def main():
     print(f"demo fails with change: {demo_fails_with}; demo passes without: {demo_passes_without}")
     confirmed = failed == 0 and passed >= 161 and demo_fails_with and demo_passes_without
     results = {}
-    if confirmed:
+    scratch = os.environ.get("SEED_SCRATCH")
+    if confirmed and scratch:
+        # same effect as applying the patch to /repo, but on a copy (/root/seedwork), so that a thorough
+        # run in the background that rebuilds from /repo never sees the change
+        w = "/root/seedwork"
+        os.makedirs(w, exist_ok=True)
+        sh(f"rsync -a --delete --exclude target --exclude .git /repo/ {w}/repo/")
+        sh(f"rsync -a --delete --exclude target --exclude .git --exclude seeded --exclude replay /verif/ {w}/verif/")
+        sh(f"sed -i 's#path = \"/repo\"#path = \"{w}/repo\"#' {w}/verif/harness/Cargo.toml")
+        rc, o = sh(f"patch -p1 -s < {out}/patch.diff", cwd=f"{w}/repo")
+        if rc != 0:
+            print("cannot apply to the copy of /repo:", o); sys.exit(1)
+        for c in checks:
+            t0 = time.time()
+            rc, o = sh(f"CARGO_TARGET_DIR={w}/target VERIF_DIR={w}/verif {w}/verif/check {c} quick", timeout=1800)
+            viol = [l for l in o.splitlines() if l.startswith("VIOLATION")]
+            first = next((l.strip() for l in o.splitlines() if l.startswith("  site=")), "")
+            results[c] = {"exit": rc, "violations_lines": len(viol), "first": first[:300], "wall_s": round(time.time() - t0, 1)}
+            print(c, "exit", rc, "VIOLATION lines", len(viol), first[:160])
+    elif confirmed:
         rc, o = sh(f"git -C /repo apply {out}/patch.diff")
         if rc != 0:
             print("cannot apply to /repo:", o); sys.exit(1)
@@ -53,7 +72,8 @@ def main():
         finally:
             sh("git -C /repo checkout -- .")
     # restore evidence files of the unchanged tree
-    sh("git checkout -- evidence replay 2>/dev/null; git clean -fdq replay", cwd="/verif")
+    if not scratch:
+        sh("git checkout -- evidence replay 2>/dev/null; git clean -fdq replay", cwd="/verif")
     meta = {
         "id": sid, "property": prop,
         "confirmed": confirmed,
@@ -61,7 +81,7 @@ def main():
         "demo_fails_with_change": demo_fails_with, "demo_passes_without_change": demo_passes_without,
         "builds_with_hooks": rc_hooks == 0,
         "needs_to_manifest": open(os.path.join(out, "agent_notes.txt")).read()[:1500],
-        "ran": "cargo test --offline (worktree, change applied); cargo test --offline --test seeded_demo with and without the change; git -C /repo apply patch.diff; ./check <ID> quick for the listed checks; git -C /repo checkout -- .",
+        "ran": ("[on a copy of /repo and /verif under /root/seedwork] " if scratch else "") + "cargo test --offline (worktree, change applied); cargo test --offline --test seeded_demo with and without the change; git -C /repo apply patch.diff; ./check <ID> quick for the listed checks; git -C /repo checkout -- .",
         "detected_by": sorted(c for c, r in results.items() if r["exit"] == 1),
         "check_results": results,
     }
